@@ -10,15 +10,27 @@ inductive LM where | locked | unlocked deriving Repr, DecidableEq
 /-- resizable `HeapBytes` or fixed-length `HeapByteArray<N>` -/
 inductive Cont where | bytes | array deriving Repr, DecidableEq
 
+/-- One constructor per way the SAFE public API reaches the bytes (or the pages) of a
+`Protected<A, PM, LM>`: every trait impl of protected.rs / bytes_serde.rs whose receiver is a
+`Protected` (see `implTable` below for the impl ↦ row map).  The first twelve rows are the original
+table; the rows from `asRef` on were added after a review of the impl list. -/
 inductive Op where
-  | readView      -- `as_slice()`
-  | mutView       -- `as_mut_slice()`
-  | arrayView     -- `as_array()`
-  | index         -- `x[0]`
-  | resize        -- `resize(n, 0)`
+  | readView      -- `Bytes::as_slice()`
+  | mutView       -- `MutBytes::as_mut_slice()`
+  | arrayView     -- `ByteArray<N>::as_array()`
+  | index         -- `x[0]`, any `&[u8]` method, through `Deref<Target = [u8]>`
+  | resize        -- `ResizableBytes::resize(n, 0)`
   | clone
   | lock | unlock | ro | rw | na
   | useAfter      -- use of a handle after a transition consumed it
+  | asRef         -- `AsRef<[u8]>::as_ref()`
+  | asMut         -- `AsMut<[u8]>::as_mut()`
+  | indexMut      -- `x[0] = b`, any `&mut [u8]` method, through `DerefMut`
+  | copyFrom      -- `MutBytes::copy_from_slice(src)`
+  | mutArrayView  -- `MutByteArray<N>::as_mut_array()`, `AsMut<[u8; N]>::as_mut()`
+  | cloneFrom     -- `Clone::clone_from(&mut self, &src)` (provided method of `Clone`)
+  | serialize     -- `serde::Serialize::serialize` (bytes_serde.rs, feature `nightly`)
+  | zeroize       -- `Zeroize::zeroize(&mut self)` — the body of `Drop`, public through the trait
   deriving Repr, DecidableEq
 
 /-- does the safe API offer `op` on a `Protected<cont, pm, lm>`? (trait impls of protected.rs) -/
@@ -41,13 +53,28 @@ def permits (pm : PM) (lm : LM) (c : Cont) : Op → Bool
   | .rw => true
   | .na => lm = .unlocked                                  -- `ProtectNoAccess` for Unlocked only
   | .useAfter => false
+  | .asRef => pm ≠ .na                                     -- `AsRef<[u8]>` for `Protected<A, ReadOnly | ReadWrite, LM>`
+  | .asMut => pm = .rw                                     -- `AsMut<[u8]>` for `Protected<A, ReadWrite, LM>`
+  | .indexMut => pm = .rw                                  -- `DerefMut` for `Protected<A, ReadWrite, LM>`
+  | .copyFrom => pm = .rw                                  -- second method of `MutBytes`
+  | .mutArrayView => c = .array ∧ pm = .rw                 -- `MutByteArray<N>`, `AsMut<[u8; N]>`: `HeapByteArray<N>`, ReadWrite, both lock modes
+  | .cloneFrom =>                                          -- provided method of `Clone`: the same four impls
+      match pm, lm with
+      | .rw, .locked => c = .bytes
+      | .ro, .locked => c = .bytes
+      | .rw, .unlocked => true
+      | .ro, .unlocked => true
+      | .na, _ => false
+  | .serialize =>                                          -- exactly three impls in bytes_serde.rs:
+      lm = .locked ∧ ((pm = .rw) ∨ (pm = .ro ∧ c = .bytes)) --  `Locked<HeapByteArray<N>>`, `LockedBytes`, `LockedRO<HeapBytes>`
+  | .zeroize => true                                       -- `impl<A, PM, LM> Zeroize for Protected<A, PM, LM>`: EVERY state
 
 /-- the access an operation performs on the region's pages -/
 inductive Access where | none | read | write deriving Repr, DecidableEq
 
 def access : Op → Access
-  | .readView | .arrayView | .index | .clone => .read
-  | .mutView | .resize => .write
+  | .readView | .arrayView | .index | .clone | .asRef | .cloneFrom | .serialize => .read
+  | .mutView | .resize | .asMut | .indexMut | .copyFrom | .mutArrayView | .zeroize => .write
   | _ => .none
 
 /-- does the page protection implied by the type state allow the access? -/
@@ -74,5 +101,49 @@ def streamPermits : Mode → StreamOp → Bool
   | .pull, .pull => true
   | _, .rekey => true
   | _, _ => false
+
+/-- Documentation: every trait impl (and provided trait method) of /repo/src/protected.rs and
+/repo/src/bytes_serde.rs whose RECEIVER is a `Protected<A, PM, LM>` (so that it reaches the bytes or
+the pages of an existing region), with the row of the table that stands for it.  `useAfter` is the
+pseudo-row.  (`Properties/C20.lean`, `table_covers_impls`: every row occurs here.)
+NOT listed because they have no row — see the note after `table_covers_impls`: constructors (they
+create a region instead of using one) and `Bytes::len` / `is_empty` (read the `Vec` header only). -/
+def implTable : List (String × Op) :=
+  [ ("Bytes::as_slice for Protected<A, ReadOnly, LM>", .readView),
+    ("Bytes::as_slice for Protected<A, ReadWrite, LM>", .readView),
+    ("MutBytes::as_mut_slice for Protected<A, ReadWrite, LM>", .mutView),
+    ("MutBytes::copy_from_slice for Protected<A, ReadWrite, LM>", .copyFrom),
+    ("ByteArray<N>::as_array for Protected<HeapByteArray<N>, ReadOnly, Unlocked>", .arrayView),
+    ("ByteArray<N>::as_array for Protected<HeapByteArray<N>, ReadOnly, Locked>", .arrayView),
+    ("ByteArray<N>::as_array for Protected<HeapByteArray<N>, ReadWrite, Unlocked>", .arrayView),
+    ("ByteArray<N>::as_array for Protected<HeapByteArray<N>, ReadWrite, Locked>", .arrayView),
+    ("MutByteArray<N>::as_mut_array for Protected<HeapByteArray<N>, ReadWrite, Locked>", .mutArrayView),
+    ("MutByteArray<N>::as_mut_array for Protected<HeapByteArray<N>, ReadWrite, Unlocked>", .mutArrayView),
+    ("AsMut<[u8; N]>::as_mut for Protected<HeapByteArray<N>, ReadWrite, Locked>", .mutArrayView),
+    ("AsMut<[u8; N]>::as_mut for Protected<HeapByteArray<N>, ReadWrite, Unlocked>", .mutArrayView),
+    ("AsRef<[u8]>::as_ref for Protected<A, ReadOnly, LM>", .asRef),
+    ("AsRef<[u8]>::as_ref for Protected<A, ReadWrite, LM>", .asRef),
+    ("AsMut<[u8]>::as_mut for Protected<A, ReadWrite, LM>", .asMut),
+    ("Deref::deref for Protected<A, ReadOnly, LM>", .index),
+    ("Deref::deref for Protected<A, ReadWrite, LM>", .index),
+    ("DerefMut::deref_mut for Protected<A, ReadWrite, LM>", .indexMut),
+    ("ResizableBytes::resize for Protected<A, ReadWrite, Locked>", .resize),
+    ("ResizableBytes::resize for Protected<A, ReadWrite, Unlocked>", .resize),
+    ("Clone::clone for Locked<T: ResizableBytes>", .clone),
+    ("Clone::clone for LockedRO<T: ResizableBytes>", .clone),
+    ("Clone::clone for Unlocked<T: Clone>", .clone),
+    ("Clone::clone for UnlockedRO<T: Clone>", .clone),
+    ("Clone::clone_from (provided) for the four Clone impls", .cloneFrom),
+    ("Lock::mlock for Protected<A, PM, Unlocked>", .lock),
+    ("Unlock::munlock for Protected<A, PM, LM>", .unlock),
+    ("ProtectReadOnly::mprotect_readonly for Protected<A, PM, LM>", .ro),
+    ("ProtectReadWrite::mprotect_readwrite for Protected<A, PM, LM>", .rw),
+    ("ProtectNoAccess::mprotect_noaccess for Protected<A, PM, Unlocked>", .na),
+    ("Serialize::serialize for Locked<HeapByteArray<N>>", .serialize),
+    ("Serialize::serialize for LockedBytes = Locked<HeapBytes>", .serialize),
+    ("Serialize::serialize for LockedRO<HeapBytes>", .serialize),
+    ("Zeroize::zeroize for Protected<A, PM, LM>", .zeroize),
+    ("Drop::drop for Protected<A, PM, LM> (calls zeroize; implicit, not callable)", .zeroize),
+    ("(pseudo) use of a moved handle, E0382", .useAfter) ]
 
 end DryocVerif.Model.TypeState
